@@ -19,6 +19,13 @@ def main(tier, seed):
     # more than RANGE_CACHE_SIZE distinct ranges in one interpreter: every loop / slice / comparison must still see the bounds written
     # (the range cache and its replacement discipline are part of Machine.tla)
     profcheck.run_scenarios(rep, "rangecache", scenarios.range_cache_scenarios(), bins, PROP)
+    # ... and are translation invariant: the same programs with every range bound moved up by K print the same; the machine runs K = 1000,
+    # the implementation also 2^31, 2^32, 2^32 + 2^31 and 2^52 (bounds the machine's exact number domain cannot hold)
+    base = scenarios.translated_range_scenarios(1000)
+    for K in (1000, 2 ** 31, 2 ** 32, 2 ** 32 + 2 ** 31, 2 ** 52):
+        big = dict(scenarios.translated_range_scenarios(K))
+        profcheck.run_scenarios(rep, "translated", [("%s:K=%d" % (pid, K), t) for pid, t in base], bins, PROP, trace=False,
+                                impl_progs={"%s:K=%d" % (pid, K): big[pid] for pid, _t in base})
     # break / continue / return leave no iteration state behind, also when the pass's variables were captured by closures that live on
     profcheck.run_scenarios(rep, "loopstate", scenarios.loop_state_scenarios(), bins, PROP)
     # strings are iterable too: one character per step, for every string of <= 3 characters over an alphabet with 1-, 2-, 3- (lead
